@@ -220,6 +220,9 @@ func (c c10Client) String() string {
 	return fmt.Sprintf("replies=%v status=%v %q details=%s", c.replies, c.code, c.msg, c.details)
 }
 
+// extra call options of the current case (e.g. an explicit grpc-encoding), the same for the direct and the proxied call
+var c10CallOpts []grpc.CallOption
+
 func c10Call(cc *grpc.ClientConn, fx *Fixture, method string, cs, ss bool, msgs []*dynamicpb.Message, md metadata.MD, clientMode ...int) (out c10Client) {
 	// clientMode: 0 half-close after the messages; 1 keep the sending side open and wait; 2 wait a moment
 	// (the backend may have completed by then), send one more message and half-close
@@ -252,7 +255,7 @@ func c10Call(cc *grpc.ClientConn, fx *Fixture, method string, cs, ss bool, msgs 
 	if !cs && !ss {
 		o := fx.NewMsg("Reply")
 		var h, t metadata.MD
-		err := cc.Invoke(ctx, full, msgs[0], o, grpc.Header(&h), grpc.Trailer(&t))
+		err := cc.Invoke(ctx, full, msgs[0], o, append([]grpc.CallOption{grpc.Header(&h), grpc.Trailer(&t)}, c10CallOpts...)...)
 		if err == nil {
 			out.replies = []string{text(o)}
 		}
@@ -260,7 +263,7 @@ func c10Call(cc *grpc.ClientConn, fx *Fixture, method string, cs, ss bool, msgs 
 		fin(err)
 		return
 	}
-	st, err := cc.NewStream(ctx, &grpc.StreamDesc{ClientStreams: cs, ServerStreams: ss}, full)
+	st, err := cc.NewStream(ctx, &grpc.StreamDesc{ClientStreams: cs, ServerStreams: ss}, full, c10CallOpts...)
 	if err != nil {
 		fin(err)
 		return
@@ -449,7 +452,8 @@ func runC10(c *Ctx) {
 			return metadata.Pairs("x-c10-id", fmt.Sprint(tag, id), "x-c10-script", fmt.Sprintf("%d,%d,%d,%d", sc.replies, sc.code, sc.failAt, eager),
 				"x-c10-msg-bin", sc.msg, "x-c10-details", map[bool]string{true: "1", false: "0"}[sc.details],
 				"x-c10-custom", "v1", "x-c10-custom", "v2", "x-c10-data-bin", string([]byte{0, 1, 0xfe, 0xff}),
-				"grpc-c10-tenant", "t1", "grpc-c10-trace-bin", string([]byte{9, 8, 0xff}))
+				"grpc-c10-tenant", "t1", "grpc-c10-trace-bin", string([]byte{9, 8, 0xff}),
+				"x-c10-bin-id", "hello", "x-c10-binding", "abcd") // text keys that merely CONTAIN "-bin"
 		}
 		in := fmt.Sprintf("%s msgs=%d backend: replies=%d code=%v failAt=%d msg=%q details=%v eager=%v clientMode=%d (0 half-close, 1 keeps open, 2 late send then half-close)", sh.name, nmsg, sc.replies, sc.code, sc.failAt, sc.msg, sc.details, sc.eager, mode)
 		if atLimit {
@@ -457,6 +461,11 @@ func runC10(c *Ctx) {
 		}
 		c.Eval("proxy", in, true)
 		c.Class(sh.name + ":" + map[bool]string{true: "ok", false: "fail"}[sc.code == codes.OK])
+		c10CallOpts = nil
+		if i%7 == 5 { // the client names its message encoding explicitly: "identity" (what C-core clients always send)
+			c10CallOpts = []grpc.CallOption{grpc.UseCompressor("identity")}
+			in += " grpc-encoding=identity"
+		}
 		dmd := mdFor("d")
 		dOut := c10Call(bcc, backFx, sh.name, sh.cs, sh.ss, msgs, dmd, mode)
 		pmd := mdFor("p")
